@@ -20,6 +20,22 @@ pub(crate) fn keyword_replace<'a>(needle: impl Into<Cow<'a, str>>) -> Cow<'a, st
     }
 }
 
+/// The identifier of the variant generated for the value `value` of a GraphQL enum: normalized, then
+/// escaped like a keyword (normalizing can turn an escaped name back into a keyword: `self_` would
+/// become `Self`). Every generated enum also has the catch-all variant `Other(String)`, so a value
+/// that would be called `Other` is escaped the same way.
+pub(crate) fn enum_variant_ident(
+    normalization: crate::normalization::Normalization,
+    value: &str,
+) -> Cow<'_, str> {
+    let name = keyword_replace(normalization.enum_variant(value));
+    if name == "Other" {
+        "Other_".into()
+    } else {
+        name
+    }
+}
+
 /// Given the GraphQL schema name for an object/interface/input object field and
 /// the equivalent rust name, produces a serde annotation to map them during
 /// (de)serialization if it is necessary, otherwise an empty TokenStream.
